@@ -33,7 +33,9 @@ REAL_VS_STUB = {
                  "kernel boundary of the file system (interposed open/read/write/close/stat/"
                  "scandir/mkdir/unlink/rename on a real tmpfs directory)",
                  "loky / process pools (SimExecutor decides start and completion order)",
-                 "clock (time.sleep is simulated; file times returned by os.stat are simulated event times)"],
+                 "clock (time.sleep is simulated; file times returned by os.stat are simulated event times, "
+                 "with a seeded granularity in C05/C06/C08/C09/C12)",
+                 "module-level state of xyzpy (functools caches cleared, global RNGs re-seeded at the start of each run)"],
     },
 }
 
@@ -72,7 +74,10 @@ PROPS = {
         "level_note": "Trusts: the harness reference (itertools.product + injective value function), actors == "
                       "processes (no shared xyzpy objects unless the scenario keeps the object), loky replaced by SimExecutor.",
         "evidence": {
-            "rule": "each run draws a sweep (grid / case list / both, 1-40 settings, result kind), "
+            "rule": "each run draws a sweep (grid / case list / both, 1-40 settings; result kinds incl. numpy arrays, "
+                    "numpy scalars, complex, None for some settings; values as list / tuple / numpy array / range; "
+                    "dict cases with their own key order, cases as one-shot iterators; argument names incl. "
+                    "'self', 'fn', 'crop'), "
                     "batching (size/count, at constructor or sow), shuffle (value and site), sow API "
                     "and spelling, then a tape-chosen history of grow operations (grow(), Crop.grow "
                     "subsets/permutations, grow_missing, num_workers via SimExecutor, repeats, fresh "
@@ -97,8 +102,10 @@ PROPS = {
                       "completed'; batch membership read from the sown batch files; external corruption is always "
                       "followed by check_bad.",
         "evidence": {
-            "rule": "each run draws a sweep and batching (1-8 batches) and then up to 12 operations from {grow one / "
-                    "subset / missing (optionally num_workers), poison or un-poison a setting, re-sow same arguments "
+            "rule": "each run draws a sweep and batching (1-8 batches; crop names incl. glob metacharacters) and then up "
+                    "to 12 operations from {grow one / "
+                    "subset / missing (optionally num_workers; ids as int / tuple / list / one-shot iterator), poison (the "
+                    "function raises FnError / StopIteration / KeyError / ValueError) or un-poison a setting, re-sow same arguments "
                     "(same or new object), delete a result, corrupt a result then check_bad, check_bad on a healthy "
                     "crop, reload}; progress is queried after an operation with probability 2/3 (so that several changes can lie between "
                     "two queries of the kept object) and always at the end. non-trivial = at least 2 batches and 2 "
@@ -121,7 +128,9 @@ PROPS = {
         "evidence": {
             "rule": "each run draws sweep, batching (<= 7 batches), shuffle, result kind; grows a non-empty proper "
                     "subset of batches (half of the runs force the last enlarged and/or first normal batch to be "
-                    "missing), checks refusal without allow_incomplete, partial reap in a tape-chosen form, "
+                    "missing), checks refusal without allow_incomplete, partial reap in a tape-chosen form (by a fresh "
+                    "object, the sowing object, or one made before the sow; 1 in 6 with a transient EIO on a finished "
+                    "result, after which the reap must have failed, not shown the batch as missing), "
                     "optionally grows more and reaps partially again, then grows the rest and reaps fully. "
                     "non-trivial = at least 2 batches; distinct = distinct (N, batch sizes, shuffle, kind, api, "
                     "grow/partial-reap sequence).",
@@ -211,8 +220,11 @@ PROPS = {
                      "(submit / apply_async / multiprocessing.Pool flavours, thread or process boundary) whose start "
                      "and completion order the seeded tape decides; call-log and reference-model oracles",
         "level_text": "Seeded exploration over grids (1-5 arguments, 1-4 values - the whole quantified range, up to 1024 "
-                      "settings - int/float/str, three spellings, "
-                      "optional case lists), constants, result kinds, split/flat, and 2-4 execution strategies per grid "
+                      "settings - int/float/str also mixed within one argument, floats one ulp apart, values as list / "
+                      "tuple / numpy array / range, argument names incl. 'fn' and 'executor', three spellings, "
+                      "optional case lists), constants, result kinds (scalar, tuples, list, 1-d / integer / 2-d numpy "
+                      "arrays, numpy scalar, complex, str), split (tuple entries or array rows) / flat, and 2-4 execution "
+                      "strategies per grid "
                       "(sequential, shuffle seeds, parallel=True/int, num_workers, every executor flavour) under "
                       "tape-chosen start/completion orders (FIFO window of 1-4 workers, or unordered). The call log "
                       "must be exactly the requested settings once each; every slot must hold its own value.",
@@ -234,7 +246,10 @@ PROPS = {
         "level_text": "Seeded exploration of histories of length 1-8 over overlapping and disjoint coordinate sets, "
                       "three overwrite policies per step, function versions that agree or conflict, sync on/off, "
                       "engines h5netcdf and joblib, data names with and without extension, a new Harvester at any "
-                      "step. A conflict under the default policy must raise and leave memory and disk unchanged; "
+                      "step; labels of one coordinate are ints, strings of different lengths, or ints and a float; "
+                      "versions that differ by a relative 2^-41 (a real conflict no tolerance may swallow); dict "
+                      "cases with their own key order; synced harvests that repeat exactly what the session holds "
+                      "un-synced. A conflict under the default policy must raise and leave memory and disk unchanged; "
                       "otherwise every acknowledged point holds the policy-decided value in memory and on disk and "
                       "nothing un-harvested appears.",
         "level_note": "sync=False harvests are un-acknowledged (documented meaning of sync): they use their own "
@@ -260,10 +275,12 @@ PROPS = {
                       "and its outputs are the function's value at exactly those arguments, runner constants and the "
                       "per-run constants of direct runs are recorded as columns, and the table equals full_df. One crop "
                       "run in four uses 6-14 samples (two-digit batch numbers).",
-        "level_note": "csv tables are compared to 1e-12 relative (pandas' default float parser is not round-trip "
-                      "exact). Row identity within a run is not checked (draws are random), only row correctness.",
+        "level_note": "Row identity within a run is not checked (draws are random), only row correctness. csv tables "
+                      "are compared exactly since fix 46e8459 (they were compared to 1e-12 relative before).",
         "evidence": {
-            "rule": "each run draws the function kind, engine, choices (list or generator) and 1-6 operations; "
+            "rule": "each run draws the function kind, engine, choices (list / tuple / numpy array / stepped range / "
+                    "generator, listed in the caller's order; overrides may repeat a choice) and 1-6 operations (a crop "
+                    "run may reuse the session's previous Crop object); csv tables are compared exactly; "
                     "non-trivial = at least 2 rows accumulated; distinct = distinct (kind, engine, operation "
                     "sequence with arguments).",
         },
